@@ -222,6 +222,15 @@ theorem sameSet_sound (a b : List Int) (h : sameSet a b = true) : ∀ x, x ∈ a
 theorem sameSet_refl (a : List Int) : sameSet a a = true := by
   unfold sameSet; exact beq_self_eq_true _
 
+/-- soundness of `sameBag`: equal sorted lists are rearrangements of each other -/
+theorem sameBag_sound (a b : List Int) (h : sameBag a b = true) : a.Perm b := by
+  unfold sameBag at h
+  have h' := eq_of_beq h
+  exact (List.mergeSort_perm a _).symm.trans (h' ▸ List.mergeSort_perm b _)
+
+theorem sameBag_refl (a : List Int) : sameBag a a = true := by
+  unfold sameBag; exact beq_self_eq_true _
+
 /-! ### name encoding -/
 
 theorem encName_nil : encName [] = 0 := by unfold encName; rw [List.foldr_nil]
